@@ -1,5 +1,5 @@
 """Which cases and clauses make up each property (DESIGN.md section 7)."""
-from . import qartod_range
+from . import profile, qartod_attenuated, qartod_flatline, qartod_location, qartod_range, qartod_spike, rate, utils_c
 
 T_COMMON = [
     "T1 pyvc itself (proxy values, path exploration, VC generation) - mitigated by the conformance run, canaries and covers",
@@ -7,17 +7,28 @@ T_COMMON = [
     "T3 float64 read as (isnan, real): no rounding, overflow, inf or signed zero; uint8/int64 as mathematical integers",
     "T4 soundness of z3 5.1.0 (cvc5 / z3 4.8.12 only when z3 answers unknown)",
 ]
+T_GEOD = "geographiclib Geodesic.WGS84.Inverse: uninterpreted geod(lat1,lon1,lat2,lon2) >= 0, NaN iff a coordinate is NaN or |lat| > 90 (conformance-checked)"
+T_ROLL = "pandas Series.rolling(f'{p}s', min_periods).std()/.apply(np.ptp, raw=True): window (t-p, t], NaN rule by count of non-NaN values; values uninterpreted (pyvc/pdmodel.py; concrete reading is pandas itself)"
+T_STAT = "numpy mean / median / std / ptp: uninterpreted values with the stated facts only (median lies between two elements; std, ptp >= 0; NaN/empty rules)"
 
 A_COMMON = [
     "inputs are one-dimensional arrays of finite float64 values or NaN on the ndarray carrier (other carriers: C15)",
     "machine arithmetic treated as mathematical (T3)",
-    "CPython executes the real function objects; only the free names np/pd/len/int/float/any/all and cross-module imports are rebound (pyvc/front.py)",
+    "CPython executes the real function objects; only the free names np/pd/len/int/float/any/all, Geodesic and cross-module imports are rebound (pyvc/front.py)",
+    "time axes are datetime64[ns] on whole seconds, strictly increasing",
 ]
 
 
 def _all_cases():
     cs = []
     cs += qartod_range.cases()
+    cs += qartod_location.cases()
+    cs += qartod_spike.cases()
+    cs += rate.cases()
+    cs += profile.cases()
+    cs += qartod_flatline.cases()
+    cs += qartod_attenuated.cases()
+    cs += [utils_c.Gcd()]
     return cs
 
 
@@ -32,14 +43,22 @@ def all_cases():
 
 
 def cases_for(prop):
-    return [c for c in all_cases() if prop in c.all_props()]
+    out = [c for c in all_cases() if prop in c.all_props()]
+    return out
+
+
+def _p(level, explanation, trusted=(), assumptions=(), bounded=()):
+    return {"level": level, "explanation": explanation, "trusted_base": T_COMMON + list(trusted), "assumptions": A_COMMON + list(assumptions), "bounded": list(bounded)}
 
 
 PROPS = {
-    "C03": {
-        "level": "proof",
-        "explanation": "every obligation generated from the real gross_range_test / valid_range_test is discharged by z3 for symbolic length and contents",
-        "trusted_base": T_COMMON,
-        "assumptions": A_COMMON,
-    },
+    "C01": _p("proof", "for every QC test: no feasible raising path, one flag per element, flag alphabet, no mask, no write to an argument buffer - obligations over the real functions for symbolic length and contents", [T_GEOD, T_ROLL, T_STAT]),
+    "C02": _p("proof", "missing => MISSING (or UNKNOWN where undefined) and MISSING only when a needed value is missing, as postconditions at a Skolem index of the real functions", [T_GEOD, T_ROLL, T_STAT]),
+    "C03": _p("proof", "every obligation generated from the real gross_range_test / valid_range_test is discharged for symbolic length, contents, spans and all inclusivity settings"),
+    "C09": _p("proof", "spike_test: interior points by the statement's magnitude formula (both methods, thresholds present/absent), end points, ValueError on unknown method"),
+    "C10": _p("proof", "rate_of_change_test and speed_test against rate = |dx| / whole elapsed seconds and geodesic speed; great_circle_distance verified against its contract and used through it", [T_GEOD]),
+    "C11": _p("proof", "flat_line_test with its closures: window of floor(threshold/D)+1 points ending at k, range of present values < tolerance; min/max reductions as ground objects with cross-instantiated bounds", [T_STAT]),
+    "C12": _p("proof", "attenuated_signal_test: dispatch, min_periods arithmetic, flag table and the arguments handed to the statistic; the statistics themselves are uninterpreted (proof relative to the rolling contract)", [T_ROLL, T_STAT], bounded=["pandas rolling NaN rule: compared with pandas on the conformance grid (bounded)"]),
+    "C13": _p("proof", "density_inversion_test pair flagging in both cast directions incl. any()-guards, pressure_increasing_test relative to the sign of the (uninterpreted) mean step", [T_STAT]),
+    "C14": _p("proof", "location_test: bounding box, one-sided missing, hop distance through the great_circle_distance contract, shape and bbox validation", [T_GEOD]),
 }
